@@ -14,7 +14,8 @@ from concurrent.futures import ThreadPoolExecutor
 
 REPO = os.environ.get('VERIF_REPO', '/repo')
 VERIF = os.path.dirname(os.path.dirname(os.path.abspath(__file__)))
-CACHE = os.path.join(VERIF, '.cache')
+# builds of scratch copies (mutation / seeded-change runs) use their own cache so they never evict the real tree's binaries
+CACHE = os.path.join(VERIF, '.cache' if REPO == '/repo' else '.cache-mut')
 NATIVE = os.path.join(VERIF, 'native')
 SUPPORT = os.path.join(VERIF, 'support')
 GUARD = 'BTCDEB_VERIF'
